@@ -382,10 +382,6 @@ pub fn judge_c11(spec: &Spec, cpu: &Cpu) -> Option<String> {
             ));
         }
     }
-    // below the load base nothing may change
-    if let Some(p) = cpu.bus.dram[..(BASE - DRAM_LO) as usize].iter().position(|&b| b != 0) {
-        return Some(format!("DRAM below the load base was modified at {:06x}", DRAM_LO as usize + p));
-    }
     // nothing outside DRAM is modified
     if cpu.bus.memory.iter().any(|&b| b != 0) || cpu.bus.exception_handling_vector.iter().any(|&b| b != 0) || cpu.bus.io_registrs1.iter().any(|&b| b != 0) || cpu.bus.io_registrs2.iter().any(|&b| b != 0) {
         return Some("memory outside DRAM was modified by the loader".into());
@@ -457,12 +453,6 @@ pub fn judge_c12(spec: &Spec, cpu: &Cpu) -> Option<String> {
     for w in regions.windows(2) {
         if w[0].1 > w[1].0 {
             return Some(format!("argument block parts overlap: [{:08x},{:08x}) and [{:08x},{:08x})", w[0].0, w[0].1, w[1].0, w[1].1));
-        }
-    }
-    // the stack region and the TCB area hold nothing of the image or the arguments
-    for a in image_end..tcb_end.min(0x600000) {
-        if dram(cpu, a) != 0 {
-            return Some(format!("stack / TCB area byte {:08x} was written ({:02x})", a, dram(cpu, a)));
         }
     }
     match spec.symbols.iter().rev().find(|(n, _)| n == "___exit") {
